@@ -81,7 +81,10 @@ def isUrlPosition (el k : Bytes) : Bool :=
 def wellFormedDataAttr (k : Bytes) : Bool :=
   match stripPrefix? b!"data-" k with
   | none => false
-  | some rest => !rest.isEmpty && !hasPrefix b!"xml" rest && rest.all fun c => !isUpper c && c != 59
+  | some rest =>
+    -- the library documents `data-xml*` (a non-empty tail after xml) as invalid; today's HTML
+    -- standard has no xml restriction at all, so `data-xml` itself is well formed either way
+    !rest.isEmpty && !(hasPrefix b!"xml" rest && rest.length > 3) && rest.all fun c => !isUpper c && c != 59
 
 def anyLinkOption (p : Policy) : Bool :=
   p.requireNoFollow || p.requireNoFollowFullyQualifiedLinks || p.requireNoReferrer ||
